@@ -52,6 +52,8 @@ func c12Menu(c lockCfg, thorough bool) func(w *engb.World, st *engb.LState, dept
 		engb.LBlock{Dt: 1, Ops: []engb.LOp{{Kind: "claim", Val: 0}, {Kind: "claim", Val: 0}}},
 		engb.LBlock{Dt: 1, Gas: "7", Ops: []engb.LOp{{Kind: "claim", Val: 0}, {Kind: "grant", Amt: "3"}}},
 		engb.LBlock{Dt: 1, Ops: []engb.LOp{{Kind: "claim", Val: 9}, {Kind: "grant", Amt: "3"}}}, // unknown validator: tx rolls back
+		// a claim in the very block at whose end an earlier unlock matures (two kinds of dues meet in one queue)
+		engb.LBlock{Dt: 10, Ops: []engb.LOp{{Kind: "claim", Val: 0}}},
 	)
 	if thorough {
 		base = append(base,
